@@ -22,6 +22,8 @@ package props
 //      named after its resolved address.
 //   S2 documented load-time defaults of the cluster parser: max_request_per_conn 0→1024, conn_buffer_limit_bytes
 //      0→16384, host weight clamped to [1,128], lb subset fall_back_policy >2 → 0.
+//   S3 close_graceful is the deprecated spelling of disable_upgrade: with close_graceful=true the dump says
+//      disable_upgrade=true.
 
 import (
 	"bytes"
@@ -265,10 +267,11 @@ func c19ResolveListen(network, addr string) (string, bool) {
 }
 
 // walk compares the input value f (position understood as schema node n) with the dump value d.
-//   fi        the struct field that holds this position (nil for roots); container elements inherit it
-//   direct    f is directly the value of struct field fi (not an element of a slice/map below it)
-//   dOK       the position exists in the dump
-//   parentF   the input object that contains the field (for N4)
+//
+//	fi        the struct field that holds this position (nil for roots); container elements inherit it
+//	direct    f is directly the value of struct field fi (not an element of a slice/map below it)
+//	dOK       the position exists in the dump
+//	parentF   the input object that contains the field (for N4)
 func (k *c19Leaf) walk(n *c19Node, fi *c19Field, direct bool, f, d interface{}, dOK bool, fp, dp string, parentF map[string]interface{}) {
 	if f == nil {
 		return // JSON null: nothing carried
@@ -386,6 +389,13 @@ func (k *c19Leaf) walk(n *c19Node, fi *c19Field, direct bool, f, d interface{}, 
 			if absentZeroOK && c19IsZeroJSON(f) && n.Kind != c19Any && n.Kind != c19Raw {
 				return // N2
 			}
+			if k.system && absentZeroOK && (n.Kind == c19Int || n.Kind == c19Uint) && fi != nil { // S2 with an omitted zero
+				if num, ok := c19Num(f); ok {
+					if a, ok := new(big.Int).SetString(num.String(), 10); ok && c19SystemDefault(fi.ID(), a, new(big.Int)) {
+						return
+					}
+				}
+			}
 			k.report(fi, "dropped", fp, dp, f, nil, "value absent from the dump")
 			return
 		}
@@ -502,6 +512,9 @@ func (k *c19Leaf) leafEq(n *c19Node, fi *c19Field, f, d interface{}, parentF map
 			return retyped()
 		}
 		if fb != db {
+			if k.system && fid == "MOSNConfig.disable_upgrade" && db && parentF["close_graceful"] == true {
+				return "", "" // S3
+			}
 			return "changed", ""
 		}
 	case c19Int, c19Uint:
